@@ -50,6 +50,15 @@ def mutate(text, rng):
     if kind == "duplicate":
         return text[:b] + " " + t + text[b:], "duplicate " + t
     if kind == "swap" and i + 1 < len(toks):
+        if rng.random() < 0.5:
+            # exchange with another token of the same class on the same line (two numbers, two names, two brackets / dots)
+            cls = (lambda x: "num" if x.isdigit() else "name" if re.match(r"[A-Za-z_]", x) else "sym" if x in "().+" else None)
+            lo, hi = text.rfind("\n", 0, a) + 1, (text.find("\n", b) if text.find("\n", b) >= 0 else len(text))
+            same = [k for k in range(len(toks)) if k != i and lo <= toks[k][0] < hi and cls(toks[k][2]) == cls(t) and cls(t) and toks[k][2] != t]
+            if same:
+                k = rng.choice(same)
+                (a1, b1, t1), (a2, b2, t2) = sorted([toks[i], toks[k]])
+                return text[:a1] + t2 + text[b1:a2] + t1 + text[b2:], "swap %s %s" % (t1, t2)
         a2, b2, t2 = toks[i + 1]
         return text[:a] + t2 + text[b:a2] + t + text[b2:], "swap %s %s" % (t, t2)
     # perturb
@@ -90,6 +99,20 @@ def all_redefinitions(text):
     return out
 
 
+def all_number_swaps(text):
+    """every exchange of two different numbers inside the secondary-structure text of one structure statement (multipliers of the
+    run-length / HU notations): segment lengths may stay right while the pairing becomes unbalanced"""
+    out = []
+    for m in re.finditer(r"^[ \t]*structure\b[^\n:]*:(?:[ \t]*domain\b)?([^\n#]*)", text, flags=re.M):
+        nums = [(m.start(1) + x.start(), m.start(1) + x.end(), x.group(0)) for x in re.finditer(r"\d+", m.group(1))]
+        for i in range(len(nums)):
+            for j in range(i + 1, len(nums)):
+                (a1, b1, t1), (a2, b2, t2) = nums[i], nums[j]
+                if t1 != t2:
+                    out.append((text[:a1] + t2 + text[b1:a2] + t1 + text[b2:], "swap-numbers %s %s" % (t1, t2)))
+    return out
+
+
 def compile_dir(d, entry, args, includes, fmt="pil"):
     from peppercompiler import compiler as pc
     import peppercompiler.utils as utils
@@ -112,7 +135,7 @@ def compile_dir(d, entry, args, includes, fmt="pil"):
 
 def run(st, tier, seed):
     res = Result("C09")
-    res.rule = ("single-token mutations (delete, duplicate, swap with the next token, perturb a number / name / star / bracket / notation "
+    res.rule = ("single-token mutations (delete, duplicate, swap with the next token or with another token of the same class on the line, perturb a number / name / star / bracket / notation "
                 "keyword) of generated programs and of the repository's example programs, applied to one file of the program; every "
                 "unmutated program is checked too; non-trivial = a mutant the compiler accepts; distinct by mutated text")
     rng = core.rng_for(seed, "c09")
@@ -144,9 +167,13 @@ def run(st, tier, seed):
     for i in range(n_prog):
         b = progen.gen_component_bundle(rng, size=rng.choice([3, 6, 10])) if rng.random() < 0.5 else \
             progen.gen_system_bundle(rng, depth=rng.randint(1, 3), size=4, n_templates=2)
+        if i % 12 == 7:
+            b = progen.both_orientation_bundle(rng)     # directed: a port bound in both orientations inside a nested system
+            res.count("directed:port-bound-in-both-orientations")
         if b is None:
             continue
-        bundles.append(("w%d" % i, b))
+        if not getattr(b, "directed", False):
+            bundles.append(("w%d" % i, b))
         with core.scratch("pepper_c09_") as d:
             progen.write_bundle(b, d)
             base = compile_dir(d, b.entry, [], b.includes)
@@ -164,6 +191,9 @@ def run(st, tier, seed):
             redefs = all_redefinitions(b.texts[rel0])
             rng.shuffle(redefs)
             muts += [(rel0, mt, what) for mt, what in redefs[:60 if tier == "quick" else 400]]
+            swaps = all_number_swaps(b.texts[rel0])
+            rng.shuffle(swaps)
+            muts += [(rel0, mt, what) for mt, what in swaps[:40 if tier == "quick" else 300]]
             for rel, mt, what in muts:
                 if mt == b.texts[rel]:
                     continue
